@@ -1,4 +1,5 @@
 import PqModel.Codec
+import PqModel.Spec.BlockCodecs
 
 /-! # C20 — Compression codecs are lossless whatever was compressed before (PARTIAL)
 
@@ -202,8 +203,11 @@ example :
   decide
 
 -- OPEN (not a property of inputs): `Compressor.Encode` still has `panic(err)` when the WRITER
--- constructor fails (compress.go:65; e.g. gzip.NewWriterLevel with an invalid level): a
--- configuration error, hence the hypothesis `hWnew`; `hlen` is io.Reader's own contract.
+-- constructor fails (compress.go:65). Reachable with the library's own codecs only through an
+-- invalid exported `Level` (`&gzip.Codec{Level: 10}`, `&zstd.Codec{Level: 99}`; brotli and lz4
+-- accept anything): then EVERY Encode panics, whatever the input — a configuration error, recorded
+-- by the check as an observation (`gzip-/zstd-invalid-level-encode-panics`), hence the hypothesis
+-- `hWnew`; `hlen` is io.Reader's own contract.
 /-- The code as it stands: no call of any history panics, whatever the reader constructor and
 `Reset` answer (errors are returned), provided the writer constructor works and Read respects
 `len(p)`. -/
@@ -335,5 +339,41 @@ theorem lz4_malformed_never_returns_before_fix (L : Lz4Impl) (src : Bytes)
 example : (∀ n, ∃ e, toyLz4.ub [0xFF, 1] n = .error e) ∧
     lz4DecodeBeforeFix toyLz4 40 0 [0xFF, 1] = none :=
   ⟨fun n => ⟨.malformed, by simp [toyLz4]⟩, by decide⟩
+
+/-! ## The block formats themselves (Snappy, LZ4): spec decoders and reference encoders
+
+Not the third-party encoders (still assumed, and sampled by L1 against these very decoders), but:
+the FORMATS admit lossless encoders, including ones that use overlapping back-references, and the
+spec decoders `snappyDec` / `lz4Dec` of `PqModel/Spec/BlockCodecs.lean` are total functions of the
+stream that invert them for EVERY input. -/
+open PqModel.Spec.BlockCodecs in
+/-- Snappy block format: the spec decoder inverts the literal-only reference encoder and the
+run-length reference encoder (one literal + overlapping copies at offset 1, split in pieces of
+at most 64) on every input whose length fits the format's 32-bit preamble. -/
+theorem snappy_dec_enc (x : List UInt8) (h : x.length < 4294967296) :
+    snappyDec (snappyEncLit x) = .ok x ∧ snappyDec (snappyEncRle x) = .ok x :=
+  ⟨snappyDec_encLit x h, snappyDec_encRle x h⟩
+
+open PqModel.Spec.BlockCodecs in
+example : snappyEncRle (List.replicate 70 7 ++ [1, 2, 2]) =
+      [73, 0, 7, 254, 1, 0, 18, 1, 0, 0, 1, 0, 2, 2, 1, 0] ∧
+    snappyDec [73, 0, 7, 254, 1, 0, 18, 1, 0, 0, 1, 0, 2, 2, 1, 0] = .ok (List.replicate 70 7 ++ [1, 2, 2]) ∧
+    -- malformed streams are rejected, not guessed: offset beyond the output, wrong length
+    snappyDec [3, 0, 7, 6, 5, 0] = .error .badOffset ∧ snappyDec [9, 0, 7, 6, 1, 0] = .error .badLength := by
+  decide +kernel
+
+open PqModel.Spec.BlockCodecs in
+/-- LZ4 block format: the spec decoder inverts the reference encoder (literals; runs of 5 or more
+as one literal and an overlapping match at offset 1, lengths with 255-extension bytes) on every
+input. -/
+theorem lz4_dec_enc (x : List UInt8) : lz4Dec (lz4EncSimple x) = .ok x :=
+  lz4Dec_encSimple x
+
+open PqModel.Spec.BlockCodecs in
+example : lz4EncSimple (List.replicate 30 7 ++ [1, 2, 2]) = [31, 7, 1, 0, 10, 48, 1, 2, 2] ∧
+    lz4Dec [31, 7, 1, 0, 10, 48, 1, 2, 2] = .ok (List.replicate 30 7 ++ [1, 2, 2]) ∧
+    lz4Dec [] = .ok [] ∧ lz4Dec [0x10, 97, 0, 0] = .error .badOffset ∧
+    lz4Dec [0x14, 97, 1, 0] = .error .truncated := by
+  decide +kernel
 
 end PqModel.Props.C20
